@@ -262,6 +262,59 @@ def rule_arity(ctx):
     return rr
 
 
+def rule_adjacent(ctx):
+    rr = RuleResult('C18', 'C18.adjacent', 'MPT',
+                    'two adjacent operands are rejected', floor=2)
+    p = ctx.project
+    ex = Exceptions(ctx)
+    fe = ExcClass('FormulaError', pkg=p.cls('formulas/errors.py', 'FormulaError'))
+    operand = p.cls('formulas/tokens/operand.py', 'Operand')
+    sites = [(p.func('formulas/tokens/operand.py', 'Operand.ast'),
+              'an operand right after an operand', None),
+             (p.func('formulas/tokens/parenthesis.py', 'Parenthesis.ast'),
+              'an opening parenthesis right after an operand', 'has_start')]
+    for f, what, extra in sites:
+        rr.instances += 1
+        ok, narrowed = False, None
+        for n in own_nodes(f):
+            if not isinstance(n, ast.If):
+                continue
+            raises = [s for s in n.body if isinstance(s, ast.Raise)]
+            if not raises:
+                continue
+            c = ex.exc_of_expr(f, raises[0].exc) if raises[0].exc is not None \
+                else None
+            if c is None or not ex.is_sub(c, fe):
+                continue
+            for call in ast.walk(n.test):
+                if isinstance(call, ast.Call) and isinstance(
+                        call.func, ast.Name) and call.func.id == 'isinstance' \
+                        and len(call.args) == 2 and 'tokens[-1]' in norm_src(
+                        call.args[0]):
+                    r = ctx.cg.resolve_name_expr(f, call.args[1])
+                    if r and r[0] == 'class':
+                        if extra and extra not in norm_src(n.test):
+                            continue
+                        if r[1] is operand:
+                            ok = True
+                        elif p.is_subclass(r[1], operand):
+                            narrowed = r[1].name
+        if ok:
+            rr.ok('%s raises a FormulaError (guard on the Operand base class)'
+                  % what, '%s:%d' % (f.module.rel, f.lineno))
+        elif narrowed:
+            rr.fail(key_of(f, 'adjacent-operand guard narrowed'),
+                    '%s only rejects %s when the previous token is a %s, not '
+                    'any Operand: e.g. a number followed by `(` is silently '
+                    'read as two arguments' % (f.qualname, what, narrowed),
+                    file=f.module.rel, function=f.qualname, line=f.lineno)
+        else:
+            rr.fail(key_of(f, 'adjacent-operand guard missing'),
+                    '%s no longer rejects %s' % (f.qualname, what),
+                    file=f.module.rel, function=f.qualname, line=f.lineno)
+    return rr
+
+
 def rule_num(ctx):
     rr = RuleResult('C18', 'C18.num', 'E6+TAB',
                     'numeric literal language within the domain of the '
@@ -333,4 +386,5 @@ def rule_num(ctx):
 
 
 def run(ctx):
-    return [rule_esc(ctx), rule_reject(ctx), rule_arity(ctx), rule_num(ctx)]
+    return [rule_esc(ctx), rule_reject(ctx), rule_arity(ctx),
+            rule_adjacent(ctx), rule_num(ctx)]
